@@ -107,6 +107,15 @@ var propCfgs = []*propCfg{
 		Stub:     []string{"unix sockets: simnet (marker file + net.Pipe connections with scheduling points at every read/write)", "signals: ServeOpts.Signals channel never fires in this check"},
 		Assumptions: append([]string{"linearizability is decided by porcupine v1.3.0 with a 30 s timeout; a timeout is counted as inconclusive, never reported"}, simgoAssumptions...),
 	},
+	{
+		ID: "C27", Level: "exploration", SimEngine: "simgo",
+		Quick:    tierCfg{Seeds: 1500, Secs: 80, Batch: 20},
+		Thorough: tierCfg{Seeds: 80000, Secs: 900, Batch: 40},
+		Rule:     "one evaluation = one activation scenario under one seeded schedule: initial socket state absent / stale (marker of a dead listener) / live current daemon with clients / live outdated daemon; 1..4 shells that Activate at tape-chosen fake times, issue a request, hold the client for a fake duration and close; daemons are started through the startProcess seam as simulated processes after a fake delay (about 0, below, above the 1 s spawn time-out); optional spawn failure and SIGTERM to a daemon; invariants over the recorded socket-namespace and process events; distinct = distinct interleaving+fault signature; non-trivial = at least one scheduling choice",
+		Real:     []string{"pkg/daemon Activate, detectDaemon, killDaemon, spawn (incl. fsutil.ClaimFile), Serve, client, service; pkg/rpc; pkg/store + bbolt including its real flock with the 1 s timeout (fake clock)"},
+		Stub:     []string{"unix sockets and socket files: simnet marker files + net.Pipe (conformance with the kernel's error classification is self-tested)", "process creation: the startProcess seam starts daemon.Serve as a simulated process after a fake delay", "pids and signals: simulated process table (syscall.Getpid and Process.Signal routed to it)", "clock: fake (spawn/kill time-outs, bbolt lock retry)"},
+		Assumptions: append([]string{"a simulated process exit closes its sockets like the kernel does; it does not unlink socket files"}, simgoAssumptions...),
+	},
 }
 
 func findProp(id string) *propCfg {
